@@ -100,13 +100,16 @@ def compareAttributes (a1 a2 : KV) : Res :=
 
 def vtGet (d : List (Int × String)) (k : Int) : Option String := (d.find? (·.1 == k)).map (·.2)
 
+/-- `text.encode('ascii', 'ignore')`: characters outside ASCII are dropped (the label of the result node only) -/
+def asciiOnly (t : String) : String := String.ofList (t.toList.filter fun c => c.toNat < 128)
+
 /-- `compare_value_table` -/
 def compareValueTable (v1 v2 : List (Int × String)) : Res :=
   .node (some "equal") (some "Valuetable")
     ((v1.filterMap fun kv =>
         match vtGet v2 kv.1 with
         | none => some (leaf "removed" ("Value " ++ toString kv.1))
-        | some l => if kv.2 != l then some (leaf "changed" ("Value " ++ toString kv.1 ++ " b'" ++ kv.2 ++ "'")) else none) ++
+        | some l => if kv.2 != l then some (leaf "changed" ("Value " ++ toString kv.1 ++ " b'" ++ asciiOnly kv.2 ++ "'")) else none) ++
      (v2.filterMap fun kv => if (vtGet v1 kv.1).isNone then some (leaf "added" ("Value " ++ toString kv.1)) else none))
 
 /-- `compare_signal_group` -/
